@@ -59,17 +59,27 @@ PROP = {'title': 'Algorithm and container helpers equal their straightforward re
                  'reaches the deciding element; calls after the decision are counted, not asserted (not documented)',
                  'get_or_insert_with_result: inserted() is read as documented at get_or_insert_result::inserted (true = inserted); the '
                  'function\'s own doc comment states the opposite and is taken to be a typo',
-                 'array::append / join / push_back and tuple::concat with lvalue arguments are checked by compile probes only (rvalue arguments '
-                 'are enumerated)',
+                 'array::append / join / push_back and tuple::concat: contents are enumerated with rvalue arguments; lvalue and mixed '
+                 'lvalue/rvalue arguments are compile probes plus a value-category check with std::string elements (lvalues unchanged)',
                  'lvalue arguments must be left unchanged (checked with std::string elements); that rvalue arguments are really moved from is '
                  'not asserted',
                  'an exception escaping from an fcppt call is recorded as crash:<fn>:terminate for the announced case',
-                 'index_map::get: insert() is expected to be called once per missing element, results stored in index order',
+                 'demoted to information counters (recorded in the evidence, never a verdict) because the documentation does not promise them: '
+                 'info:<fn>:source_read_twice (a single-pass source whose begin() is called twice or whose stale iterator copy is advanced; a '
+                 'second traversal that really consumes the source is seen by the result and visit-order checks), '
+                 'info:index_map:insert_calls_or_order (how often index_map::get calls insert() and which result fills which gap; verdicts are: '
+                 'size grows to index+1, old elements stay, every new element is a result of insert() resp. T()), info:array::init<N>:index_order '
+                 '(order of the calls over the indices; verdict: every index exactly once), all_of/contains_if/find_by_opt calls after the '
+                 'decision',
+                 'kept as verdicts because the property says so: callbacks are applied to the elements in range order, once per element '
+                 '("visit elements in order"; map: "For every element e in _source, _function(e) is inserted"), early stops of loop_break / '
+                 'fold_break exactly as their documentation defines them, lvalue arguments unchanged, returned references / iterators refer '
+                 'to the documented element, return types as declared',
                  'heterogeneous values are compared with the elements exactly as given (exact comparison in long double = the usual '
                  'arithmetic conversions for the types used), never after narrowing to the element type; where the documented signature '
                  'itself converts the argument (remove: const_reference, get_or_insert: key_type, split_string: value_type delimiter, '
                  'std::map::find without a transparent comparator) only values representable in the target type are used',
-                 'a single-pass source must be traversed at most once (:source_read_twice) and still give the result of the plain loop',
+                 'a single-pass source must give the result of the plain loop with the callback applied once per element in order',
                  'get_or_insert: the documentation says the mapped object is created and then inserted, hence: a throwing create leaves no '
                  'entry for the key, a later call creates it, create sees the container without the new key, and the mapped type need not be '
                  'default-constructible (compile probe)',
